@@ -3,7 +3,7 @@
 (* (<<name, <<bits>>>>), w (type width in bits).  The state is the raw value behind the variable    *)
 (* (SDO: LocalNode.data_store; PDO: PdoMap.data), as a limb integer.                                *)
 EXTENDS Views, Json, IOUtils
-VInit(t) == [raw |-> Limb(FALSE, <<>>), descs |-> t.descs]      \* descs: the description table as it is now
+VInit(t) == [raw |-> Limb(FALSE, <<>>), descs |-> t.descs, fn |-> t.fn, fd |-> t.fd]      \* descs: the description table as it is now
 VShow(st) == st
 Bad(st, why) == [ok |-> FALSE, why |-> why, st |-> st]
 Good(st) == [ok |-> TRUE, why |-> "", st |-> st]
@@ -16,12 +16,12 @@ VStep(st, e, t) ==
     CASE e.e = "setraw" -> IF e.ok THEN Good([st EXCEPT !.raw = Lim(e.v)]) ELSE Bad(st, "HARNESS: raw assignment failed")
       [] e.e = "phys_set" ->
            IF ~e.ok THEN Bad(st, "assigning a physical value raised")
-           ELSE IF ~NearestRaw(ToInt(Lim(e.after)), e.vn, e.vd, t.fn, t.fd)
+           ELSE IF ~NearestRaw(ToInt(Lim(e.after)), e.vn, e.vd, st.fn, st.fd)
              THEN Bad(st, "raw value is not the nearest integer of value / factor")
            ELSE Good([st EXCEPT !.raw = Lim(e.after)])
       [] e.e = "phys_get" ->
            IF ~e.ok THEN Bad(st, "reading the physical value raised")
-           ELSE IF ~PhysReadOk(e.P, ToInt(st.raw), t.fn, t.K) THEN Bad(st, "physical value is not raw * factor")
+           ELSE IF ~PhysReadOk(e.P, ToInt(st.raw), st.fn, t.K) THEN Bad(st, "physical value is not raw * factor")
            ELSE Good(st)
       [] e.e = "desc_set" ->
            LET i == ValueOf(st.descs, e.name) IN
@@ -35,6 +35,8 @@ VStep(st, e, t) ==
            ELSE IF ~e.ok THEN Bad(st, "reading the description of a described value raised")
            ELSE IF e.name # st.descs[i][2] THEN Bad(st, "description of the current value is wrong")
            ELSE Good(st)
+      [] e.e = "refactor" ->    \* the scaling factor of the entry is changed (fn / fd from now on)
+           IF ~e.ok THEN Bad(st, "HARNESS: assigning the factor failed") ELSE Good([st EXCEPT !.fn = e.fn, !.fd = e.fd])
       [] e.e = "redesc" ->      \* the application describes a value anew (or describes one more value)
            LET i == DescOf(st.descs, e.val) IN
            IF ~e.ok THEN Bad(st, "HARNESS: add_value_description failed")
